@@ -22,6 +22,10 @@ def _is_rout(o, rt):
 
 
 def adjoint_check(res, cfg, facts0, run, shapes, sub, none, tau, interior_fn=None, max_sat=4, seed=11, leaf_names=None):
+    return core.run_paths(res, lambda: _adjoint_path(res, cfg, facts0, run, shapes, sub, none, tau, interior_fn, max_sat, seed, leaf_names))
+
+
+def _adjoint_path(res, cfg, facts0, run, shapes, sub, none, tau, interior_fn, max_sat, seed, leaf_names):
     rt = symtorch.real_torch()
     nl = len(shapes)
     t0 = time.time()
@@ -61,6 +65,34 @@ def adjoint_check(res, cfg, facts0, run, shapes, sub, none, tau, interior_fn=Non
     if not outs:
         res.status = 'skipped'; res.notes.append('no output requires grad'); return None
     gv = [rng.uniform(-1, 1, size=tuple(o.shape)) for o in outs]
+    pc = list(P.PATHS.taken)
+    if pc:
+        env0 = P.AtomEnv()
+        for k in range(nl):
+            if lids[k] is not None:
+                for a, v in zip(lids[k].reshape(-1), rleaves[k].detach().numpy().reshape(-1)):
+                    env0[int(a)] = float(v)
+        for gi, g in zip(cids, gv):
+            for a, v in zip(gi.reshape(-1), g.reshape(-1)):
+                env0[int(a)] = float(v)
+        if not core.path_env_ok(env0):
+            # pick a validation point on this path (dyadic values, so that the float run branches identically)
+            ps = smt.Solver(stats=smt.Stats()); ps.keep_sample = False
+            for i_ in [i for i in lids if i is not None] + cids:
+                for a in i_.reshape(-1):
+                    ps.var(int(a))
+            ps.add_path(pc)
+            import z3 as _z3
+            m = ps.nice_model(_z3.BoolVal(True), [a for a in ps.vars if P.ATOMS.kind[a] in ('in', 'cot')])
+            if m is None:
+                res.notes.append('no dyadic point on path %s: engine validation skipped for this path' % ([d for _, d in pc],))
+                rleaves = None
+            else:
+                rleaves = [None if none[k] else rt.tensor(core.model_array(m, lids[k]), requires_grad=bool(sub[k])) for k in range(nl)]
+                gv = [core.model_array(m, gi) for gi in cids]
+                routs = [o for o in run(symtorch.real(), rleaves) if _is_rout(o, rt)]
+    if rleaves is None:
+        return None
     want = [l for k, l in enumerate(rleaves) if l is not None and sub[k]]
     rgo = core.outcome(lambda: rt.autograd.grad(routs, want, [rt.tensor(g) for g in gv], allow_unused=True))
     if bo[0] != rgo[0] or (bo[0] == 'raise' and bo[1] != rgo[1]):
@@ -97,6 +129,12 @@ def adjoint_check(res, cfg, facts0, run, shapes, sub, none, tau, interior_fn=Non
             for kx, c in p.t.items():
                 Jt.setdefault(kx[0], []).append((c, g))
     st = res.stats or smt.Stats(); solver = smt.Solver(stats=st)
+    if pc:
+        for gi in cids:
+            for a in gi.reshape(-1):
+                solver.var(int(a))
+        solver.add_path(pc)
+        facts0 = dict(facts0, path=[bool(d) for _, d in pc])
     sats = []
     first = None
     for k in range(nl):
@@ -121,10 +159,14 @@ def adjoint_check(res, cfg, facts0, run, shapes, sub, none, tau, interior_fn=Non
             v, model = solver.decide_amplified(d, tau, label='leaf%d%s' % (k, list(idx)))
             if v == 'sat':
                 if not any(s[0] == k and s[3] == interior for s in sats):
+                    if pc:
+                        nm = solver.nice_model(solver._last_query, [a for a in solver.vars if P.ATOMS.kind[a] in ('in', 'cot')])
+                        model = nm or model
                     sats.append((k, idx, model, interior, 'value'))
             elif v != 'unsat':
                 res.status = 'inconclusive'; res.notes.append('solver answered %s' % v)
-            if len(sats) >= max_sat:
+            if len(sats) >= max_sat or (interior_fn is None and any(s[0] == k for s in sats)) or \
+                    (interior_fn is not None and len([s for s in sats if s[0] == k]) >= 2):
                 break
     if first is not None and cids and cids[0].size:
         dd = first + Poly.var(int(cids[0].reshape(-1)[0])) * Fraction(1, 10 ** 6) * max(1, int(float(tau) * 10 ** 9))
@@ -141,8 +183,9 @@ def adjoint_check(res, cfg, facts0, run, shapes, sub, none, tau, interior_fn=Non
             res.violations.append(dict(what='input %s requires grad and influences the output but receives no gradient' % facts['leaf'], facts=facts,
                                        replay=dict(kind='nograd', leaf=k, idx=list(idx)), reproduced=rep['reproduced']))
         else:
-            res.violations.append(dict(what='gradient of input %s at %s differs from J^T g by %.3g (%s)' % (facts['leaf'], list(idx), rep['diff'], 'interior' if interior else 'border region'),
-                                       facts=facts, replay=dict(kind='grad', g=[g.tolist() for g in gvv], leaf=k, idx=list(idx), tau=float(tau)), reproduced=rep['reproduced']))
+            res.violations.append(dict(what='gradient of input %s at %s differs from J^T g by %.3g (%s)%s' % (facts['leaf'], list(idx), rep['diff'], 'interior' if interior else 'border region',
+                                                                                                                 ' on the data-dependent path %s' % facts0.get('path') if pc else ''),
+                                       facts=facts, path_dependent=bool(pc), replay=dict(kind='grad', g=[g.tolist() for g in gvv], leaf=k, idx=list(idx), tau=float(tau)), reproduced=rep['reproduced']))
     if res.violations:
         res.status = 'violation'
     return dict(acc=acc, leaves=leaves, lids=lids, cids=cids, outs=outs, vals=vals)
